@@ -95,6 +95,7 @@ func checkPayAmount(c *Ctx, rule, key string, ci ssa.CallInstruction) {
 
 func checkC19(c *Ctx) {
 	p := c.P
+	checkNoKnownNilErrorReturn(c, "R1", func(f *ssa.Function) bool { return inPkg(p, f, "/actor") }, 5)
 	ri := p.Iface("/actor", "Runner")
 	if ri == nil {
 		c.Bad("R1", "anchors", "-", "Runner interface not found")
